@@ -332,34 +332,36 @@ pub fn dump_blocks(blocks: &[Block], index: &[(Vec<u8>, Vec<u64>, u64, u64)]) ->
     p
 }
 
-/// Wrap an arbitrary plaintext stream (normally dump_blocks output) into an archive
-pub fn encode_stream(plain: &[u8], e: &EncPar, c: &Consts) -> Vec<u8> {
-    let mut s = plain.to_vec();
-    if e.layers & 2 != 0 {
-        let mut out = vec![];
-        let mut sizes: Vec<u32> = vec![];
-        let mut last = 0u32;
-        for blk in s.chunks(c.block) {
-            let mut comp = vec![];
-            let params = brotli::enc::BrotliEncoderParams { quality: e.level as i32, lgwin: 22, ..Default::default() };
-            brotli::BrotliCompress(&mut &blk[..], &mut comp, &params).unwrap();
-            sizes.push(comp.len() as u32);
-            last = blk.len() as u32;
-            out.extend(comp);
-        }
-        let mut foot = vec![];
-        foot.extend((sizes.len() as u64).to_le_bytes());
-        for z in &sizes {
-            foot.extend(z.to_le_bytes());
-        }
-        foot.extend(last.to_le_bytes());
-        out.extend(&foot);
-        out.extend((foot.len() as u32).to_le_bytes());
-        s = out;
+/// Compression layer: independent brotli streams of `block` bytes + SizesInfo footer + its length
+pub fn compress_layer(plain: &[u8], level: u32, c: &Consts) -> Vec<u8> {
+    let mut out = vec![];
+    let mut sizes: Vec<u32> = vec![];
+    let mut last = 0u32;
+    for blk in plain.chunks(c.block) {
+        let mut comp = vec![];
+        let params = brotli::enc::BrotliEncoderParams { quality: level as i32, lgwin: 22, ..Default::default() };
+        brotli::BrotliCompress(&mut &blk[..], &mut comp, &params).unwrap();
+        sizes.push(comp.len() as u32);
+        last = blk.len() as u32;
+        out.extend(comp);
     }
+    let mut foot = vec![];
+    foot.extend((sizes.len() as u64).to_le_bytes());
+    for z in &sizes {
+        foot.extend(z.to_le_bytes());
+    }
+    foot.extend(last.to_le_bytes());
+    out.extend(&foot);
+    out.extend((foot.len() as u32).to_le_bytes());
+    out
+}
+
+/// Header + (optional) encryption of an already compressed-or-not stream
+pub fn wrap(stream: &[u8], e: &EncPar, c: &Consts) -> Vec<u8> {
     let mut hdr = b"MLA".to_vec();
     hdr.extend(1u32.to_le_bytes());
     hdr.push(e.layers);
+    let mut s = stream.to_vec();
     if e.layers & 1 != 0 {
         hdr.push(1);
         let eph = StaticSecret::from(e.ephemeral);
@@ -376,8 +378,7 @@ pub fn encode_stream(plain: &[u8], e: &EncPar, c: &Consts) -> Vec<u8> {
         hdr.extend(e.nonce);
         let cipher = Aes256Gcm::new_from_slice(&e.key).unwrap();
         let mut out = vec![];
-        let mut i = 0u32;
-        let mut emit = |data: &[u8], out: &mut Vec<u8>, i: u32| {
+        let emit = |data: &[u8], out: &mut Vec<u8>, i: u32| {
             let mut buf = data.to_vec();
             let tag = cipher.encrypt_in_place_detached((&chunk_nonce(&e.nonce, i)).into(), b"", &mut buf).unwrap();
             out.extend(buf);
@@ -386,9 +387,8 @@ pub fn encode_stream(plain: &[u8], e: &EncPar, c: &Consts) -> Vec<u8> {
         if s.is_empty() {
             emit(&[], &mut out, 0);
         }
-        for ch in s.chunks(c.chunk) {
-            emit(ch, &mut out, i);
-            i += 1;
+        for (i, ch) in s.chunks(c.chunk).enumerate() {
+            emit(ch, &mut out, i as u32);
         }
         s = out;
     } else {
@@ -396,4 +396,13 @@ pub fn encode_stream(plain: &[u8], e: &EncPar, c: &Consts) -> Vec<u8> {
     }
     hdr.extend(s);
     hdr
+}
+
+/// Wrap an arbitrary plaintext stream (normally dump_blocks output) into an archive
+pub fn encode_stream(plain: &[u8], e: &EncPar, c: &Consts) -> Vec<u8> {
+    if e.layers & 2 != 0 {
+        wrap(&compress_layer(plain, e.level, c), e, c)
+    } else {
+        wrap(plain, e, c)
+    }
 }
